@@ -105,6 +105,7 @@ where
     fn call(&mut self, req: Req) -> Self::Future {
         let start = Instant::now();
         self.in_flight.fetch_add(1, Ordering::Relaxed);
+        let in_flight_guard = InFlightGuard(Arc::clone(&self.in_flight));
 
         let future = self.inner.call(req);
 
@@ -120,7 +121,6 @@ where
         }
 
         let algorithm = Arc::clone(&self.algorithm);
-        let in_flight = Arc::clone(&self.in_flight);
         let semaphore = Arc::clone(&self.semaphore);
         let current_limit = Arc::clone(&self.current_limit);
 
@@ -130,7 +130,7 @@ where
                 let latency = start.elapsed();
 
                 // Decrement in-flight counter
-                in_flight.fetch_sub(1, Ordering::Relaxed);
+                drop(in_flight_guard);
 
                 match &result {
                     Ok(_) => algorithm.record_success(latency),
@@ -151,6 +151,15 @@ where
                 result.map_err(AdaptiveError::Service)
             }),
         }
+    }
+}
+
+/// Decrements the in-flight counter when the call finishes, fails, panics or is dropped.
+struct InFlightGuard(Arc<AtomicUsize>);
+
+impl Drop for InFlightGuard {
+    fn drop(&mut self) {
+        self.0.fetch_sub(1, Ordering::Relaxed);
     }
 }
 
